@@ -282,3 +282,34 @@ def predefined_collections(ctx):
                 return
         finally:
             srv.__exit__(None, None, None)
+
+
+def truncated_uploads(ctx):
+    """An upload that ends before its declared Content-Length (connection cut, proxy time-out) where the received prefix
+    still parses: it must be refused and change nothing -- never stored as if it were the whole body."""
+    cards = "".join(comp_text("VCARD", "tc%d" % i, "n%d" % i) for i in range(4))
+    events = "BEGIN:VCALENDAR\r\nPRODID:-//v//EN\r\nVERSION:2.0\r\n" + "".join(comp_text("VEVENT", "te%d" % i, "s%d" % i) for i in range(3))
+    cases = [("whole-address-book", "/u/a/", cards, [cards.index("BEGIN:VCARD", 10), len(cards) - 5, cards.index("END:VCARD") + len("END:VCARD\r\n")]),
+             ("whole-calendar", "/u/c/", events + "END:VCALENDAR\r\n", [len(events), len(events) + 8]),
+             ("item-card", "/u/a/one.vcf", comp_text("VCARD", "one", "one"), [20, len(comp_text("VCARD", "one", "one")) - 4]),
+             ("propfind-body", "/u/c/", '<?xml version="1.0"?><D:propfind xmlns:D="DAV:"><D:prop><D:getetag/></D:prop></D:propfind>', [30])]
+    with impl.Server(conf={"auth": {"type": "none"}, "rights": {"type": "authenticated"}}) as srv:
+        srv.mkcol("/u/")
+        srv.mkcalendar("/u/c/")
+        srv.mkaddressbook("/u/a/")
+        srv.put("/u/a/keep.vcf", comp_text("VCARD", "keep", "keep"), login="u:")
+        srv.put("/u/c/keep.ics", "BEGIN:VCALENDAR\r\nPRODID:-//v//EN\r\nVERSION:2.0\r\n" + comp_text("VEVENT", "keep", "keep") + "END:VCALENDAR\r\n", login="u:")
+        for what, path, body, cuts in cases:
+            full = body.encode("utf-8")
+            for cut in cuts:
+                before = impl.tree_dump(srv.folder, skip_cache=True)
+                meth = "PROPFIND" if what == "propfind-body" else "PUT"
+                st, _, _ = srv.request(meth, path, data=full[:cut], login="u:", environ={"CONTENT_LENGTH": str(len(full))})
+                ctx.case(("truncated", what, cut), nontrivial=True)
+                ctx.count("truncated-upload:%s:%s" % (what, st))
+                changed = impl.tree_dump(srv.folder, skip_cache=True) != before
+                if st < 400 or changed:
+                    ctx.violation("%s of %s with only %d of the %d declared bytes received is answered %s%s" % (
+                        meth, path, cut, len(full), st, " and the store changed" if changed else ""),
+                        dict(path=path, declared=len(full), received=cut, body_prefix=full[:cut].decode("utf-8", "replace")[-300:]))
+                    return
